@@ -29,6 +29,19 @@ def _tb(task):
         return guarded(_reraise)
 
 
+def _multi(task):
+    from fam import simcheck
+    try:
+        if task.get('pre'):
+            # after a pass: against the design BEFORE the pass (same stimuli), not against the post-pass netlist
+            return simcheck.pass_preserves(design=task['design'], simname=task['simname'], pre=task['pre'],
+                                           seed=task['seed'] + task['use_init'], nsteps=task['nsteps'])
+        return simcheck.run_case(**task)
+    except Exception:
+        from vlib.guard import guarded
+        return guarded(_reraise)
+
+
 def _rom(task):
     import traceback
     from fam import memcheck
@@ -175,6 +188,26 @@ def run(ctx):
     ctx.family('C08.initial_contents', 'B', instances=len(ttasks), evaluations=len(ttasks), nontrivial=len(ttasks),
                bound='3 memory designs x 3 simulators x 2 initial-state modes: testbench initial words vs the '
                      'memory_value_map the run started from, after a run with writes', sample=ttasks[0])
+    # designs with SEVERAL memories (each its own array), with and without initial contents, plain and optimized
+    mtasks = [dict(design=d, simname=sname, seed=ctx.seed, nsteps=60, use_init=ui, pre=pre)
+              for d in ({'name': 'mems_same_name', 'params': {}}, {'name': 'mem_chain', 'params': {}},
+                        {'name': 'mem_clear', 'params': {}})
+              for sname in SIMS for ui in (0, 1) for pre in ((), ('optimize',))]
+    mres = passcheck.pmap(_multi, mtasks)
+    for t, r in zip(mtasks, mres):
+        if r.get('crashed'):
+            ctx.crashes.append('C08.multi_memory: ' + r['observed'][-400:])
+        elif r['failed']:
+            ctx.confirm_and_report('C08.multi_memory[%s %s init=%d pre=%s]' % (t['simname'], t['design']['name'], t['use_init'],
+                                                                               '+'.join(t['pre'])),
+                                   'call', dict(module='props.C08', func='_multi', kwargs=dict(task=t)),
+                                   canonical_input=t, function='pyrtl.%s' % t['simname'],
+                                   text='a memory of a multi-memory design does not behave as its own array')
+    ctx.family('C08.multi_memory', 'B', instances=len(mtasks), evaluations=len(mtasks) * 60, nontrivial=len(mtasks),
+               bound='3 multi-memory designs (same-named memories, memories chained through write ports, constant write '
+                     'data) x 3 simulators x {no initial state (two simulations in a row), random initial state} x '
+                     '{plain, optimized}: every traced wire and the final contents vs the reference cycle semantics',
+               sample=mtasks[0])
     ctx.assume('Verilog memory emission is covered by C05; multi-port/wide memories in the C02/C03/C04 families')
     return ctx.finish('proof', './check C08',
                       ['z3', 'pyvc', 'int theory of DESIGN 3.2'],
